@@ -170,11 +170,32 @@ HEmbed ==
                  (ri < rf) => OwnRows(fd, ri, rf) = [k \in 1..(rf - ri) |-> ri + k - 1]
 LawEmbed == Step(10) /\ bad' = (IF HEmbed THEN bad ELSE bad \cup {"Embed"})
 
+\* 11. expectation: consistent between kets and their projectors (as documented), equal to the
+\*     trace of the matrix product for two operators WITHOUT conjugation (a generic, non-Hermitian
+\*     first operator distinguishes Tr[A B] from Tr[A^dagger B]), and it evaluates the duality
+\*     Tr[embed(A) rho] = Tr[A ptr(rho)] for non-Hermitian A, operators and kets
+HExpec ==
+  LET G  == GenMat(D, D, seed + 21)                 \* generic complex, neither Hermitian nor symmetric
+      G2 == GenMat(D, D, seed + 22)
+      ph == GenMat(D, 1, seed + 23)
+      As == GenMat(dsel, dsel, seed + 11)
+  IN  D > 1 =>       \* (a 1x1 object is at once ket and operator: no convention to check)
+      /\ Expec(psi, G) = Expec(Proj(psi), G) /\ Expec(G, psi) = Expec(G, Proj(psi))
+      /\ Expec(psi, G) = Expec(G, psi)
+      /\ Expec(psi, ph) = Expec(Proj(psi), Proj(ph)) /\ Expec(psi, ph) = Expec(Proj(psi), ph)
+      /\ Expec(G, G2) = Tr(MatMul(G, G2)) /\ Expec(G, G2) = Expec(G2, G)
+      /\ Expec(Dagger(G), rho) = GConj(Expec(G, rho))          \* rho Hermitian
+      /\ ~IsHermitian(G) /\ ~SameMat(G, Transpose(G))            \* the test operator is generic indeed
+      /\ dsel > 1 =>
+           /\ Expec(EmbedKept(As, dims, Kset), rho) = Expec(As, PTrace(rho, dims, Kset))
+           /\ Expec(EmbedKept(As, dims, Kset), psi) = Expec(As, PTraceKet(psi, dims, Kset))
+LawExpec == Step(11) /\ bad' = (IF HExpec THEN bad ELSE bad \cup {"Expec"})
+
 \* the verified case is printed; the harness replays it into quimb (S->C)
-Emit == /\ Step(11) /\ bad' = bad
+Emit == /\ Step(12) /\ bad' = bad
         /\ PrintT(<<"QVJSON", ToJson([dims |-> dims, sel |-> sel, seed |-> seed])>>)
 
-Next == Emit \/ LawKron \/ LawAdjoint \/ LawAdjointOrdered \/ LawKetProjector \/ LawPTraceProduct
+Next == Emit \/ LawExpec \/ LawKron \/ LawAdjoint \/ LawAdjointOrdered \/ LawKetProjector \/ LawPTraceProduct
         \/ LawPermuteKron \/ LawPermuteEmbed \/ LawPKron \/ LawPartialTranspose \/ LawEmbed
 Spec == Init /\ [][Next]_vars
 
